@@ -150,10 +150,11 @@ MANIFEST = dict(
     level_text=(
         "Static analysis (no execution): forwarding/binding of the optimal-completion options, kernel mode, and the "
         "single-sentinel table (target padding == cross-entropy ignore_index == padding-mask constant), left alignment "
-        "of the targets and the averaging shape of the loss. Structural clauses of C03 ('followed only by padding', "
+        "of the targets, the averaging shape of the loss and the axis of the mean reduction (the sequence axis of the "
+        "layout chosen by batch_first, evaluated under both values of the flag). Structural clauses of C03 ('followed only by padding', "
         "'zero where there are none', one loss position per hypothesis token); that the targets are exactly the "
         "distance-preserving tokens is value-level and not decided."),
     level_note="Trusted: python ast; torch cross_entropy semantics.",
-    technique="static analysis: argument binding, literal/sentinel table agreement, expression-shape rules",
+    technique="static analysis: argument binding, literal/sentinel table agreement, expression-shape rules, layout-axis evaluation under the batch_first flag",
     design_ref="DESIGN.md section 4 C03",
 )
